@@ -211,6 +211,13 @@ class Target:
             out.append(f'#define NV_ENUM_{en} 1\nenum {{ ' + ', '.join(f'NVE_{en}_{c} = {v}' for c, v in consts) + ' };')
             info.setdefault('enums_from_source', {})[qn] = consts
         out.append(f'#include "{os.path.join(VERIF, self.prelude)}"')
+        # NV_ARG_<c_name>_<k>: the name the source gives the k-th parameter (self first): contracts written with these
+        # macros do not depend on how the library spells its parameter names
+        for f in present:
+            for k, prm in enumerate(f.printer.params):
+                pm = re.search(r'(\w+)$', prm.strip())
+                if pm:
+                    out.append(f'#define NV_ARG_{f.cname}_{k} {pm.group(1)}')
         for f in present:
             out.append(f'#ifndef NV_CONTRACT_{f.cname}\n#define NV_CONTRACT_{f.cname}\n#endif')
         for m in loops:
